@@ -307,9 +307,11 @@ def kp_model(rs):
     sig = np.array([[[0, 1], [1, 0]], [[0, -1j], [1j, 0]], [[1, 0], [0, -1]]], dtype=complex)
     eye = np.eye(2, dtype=complex)
 
+    mass = np.array([0.3, -0.2, 1.0]) * float(rs.uniform(1.3, 1.8))    # gap: no Weyl node, smooth Berry curvature
+
     def dvec(k):
         k = np.asarray(k, dtype=float)
-        return lam * k + wv @ (k * k)
+        return mass + lam * k + wv @ (k * k)
 
     def ham(k):
         k = np.asarray(k, dtype=float)
@@ -336,7 +338,7 @@ def kp_model(rs):
 
     with quiet():
         s = wb.system.SystemKP(Ham=ham, derHam=dham, der2Ham=d2ham, der3Ham=d3ham, kmax=1.0)
-    return s, dict(kind="kp", A=A, lam=lam.tolist(), tilt=tilt.tolist(), w=wv.tolist())
+    return s, dict(kind="kp", A=A, lam=lam.tolist(), tilt=tilt.tolist(), w=wv.tolist(), mass=mass.tolist())
 
 
 def run_pairs(ctx, s, par, names, ef, kT, NK, NKFFT):
